@@ -28,7 +28,7 @@ TEMPS = [300.0, 1000.0]
 
 PLANNED_TAGS = ['insert:below-first-interior', 'insert:between', 'insert:equal', 'insert:equal-last',
                 'insert:above-last', 'pop:interior', 'pop:last', 'pop:0-refused', 'reload:dict',
-                'reload:json']
+                'reload:json', 'slopes:int-typed', 'construct:shared-lists']
 
 
 def bounds(tier):
@@ -38,6 +38,11 @@ def bounds(tier):
 
 
 DEPTH_T = 5
+
+
+INT_SLOPE_CYCLE = [3, -12, 8]          # whole-number slopes given as Python ints (integer-typed buffers truncate)
+INT_INS_S = [-3, 40]
+INT_LAT = [0.0, 0.3, 0.7]
 
 
 def _inits(tier):
@@ -52,8 +57,20 @@ def _inits(tier):
     return out
 
 
+def _int_inits():
+    out = []
+    for n in (1, 2, 3):
+        for rest in itertools.combinations(INT_LAT[1:] + [1.0], n - 1):
+            out.append(dict(intervals=[0.0] + list(rest), slopes=[INT_SLOPE_CYCLE[(k + n) % 3] for k in range(n)],
+                            ints=True))
+    return out
+
+
 def shards(tier):
-    return [dict(init=i, depth=3 if tier == 'quick' else DEPTH_T) for i in _inits(tier)]
+    out = [dict(init=i, depth=3 if tier == 'quick' else DEPTH_T) for i in _inits(tier)]
+    out += [dict(init=i, depth=2 if tier == 'quick' else 4) for i in _int_inits()]
+    out += [dict(kind='shared', n=n) for n in (1, 2, 3)]
+    return out
 
 
 # ------------------------------------------------------------------ reference
@@ -129,6 +146,22 @@ def apply_op(obj, op, ctx, sig, case):
         new = PiecewiseCovEffect.from_dict(d)
         ctx.equal('reload leaves intervals/slopes of the dictionary intact',
                   (d.get('intervals'), d.get('slopes')), (d0['intervals'], d0['slopes']), sig, case)
+        # the reloaded object is independent: editing a second clone (made from the same dictionary and from
+        # a fresh to_dict) must not reach the original, the first clone or the dictionary
+        for src in (d, obj.to_dict()):
+            probe = PiecewiseCovEffect.from_dict(src)
+            probe.insert(0.33, 7.0)
+            if len(probe.intervals) > 2:
+                probe.pop(1)
+        scribble = obj.to_dict()                 # a caller may edit the dictionary it was given
+        for key, val in (('intervals', 9.9), ('slopes', 1.0), ('intercepts', 5.0)):
+            if isinstance(scribble.get(key), list):
+                scribble[key].append(val)
+        ctx.equal('editing a reloaded copy leaves the original object unchanged', _pairs(obj), before, sig, case)
+        ctx.equal('editing a reloaded copy leaves the first copy unchanged', _pairs(new), before, sig, case)
+        ctx.equal('editing a reloaded copy leaves the dictionary unchanged',
+                  (d.get('intervals'), d.get('slopes')), (d0['intervals'], d0['slopes']), sig, case)
+        check_state(obj, ctx, dict(sig, after='edit of a reloaded copy'), case)
         return new, before
     if kind == 'json':
         ctx.tag('reload:json')
@@ -188,9 +221,9 @@ def check_state(obj, ctx, sig, case):
     return bool(ok)
 
 
-def _ops_for(obj):
+def _ops_for(obj, ints=False):
     n = len(obj.intervals)
-    ops = [['insert', b, s] for b in INS_B for s in INS_S]
+    ops = [['insert', b, s] for b in INS_B for s in (INT_INS_S if ints else INS_S)]
     ops += [['pop', i] for i in range(0, n)]
     ops += [['dict'], ['json']]
     return ops
@@ -251,12 +284,54 @@ def _silent(obj, op):
     return obj
 
 
+def _shared_cases(n):
+    """Two objects constructed from the SAME caller-owned lists, then every single edit on one of them."""
+    for init in [i for i in _inits('quick') if len(i['intervals']) == n]:
+        for who in (0, 1):
+            base = _build(init)
+            for op in _ops_for(base):
+                if op[0] in ('dict', 'json') or op == ['pop', 0]:
+                    continue
+                yield dict(kind='shared', init=init, who=who, op=op)
+
+
+def check_shared(case, ctx):
+    from pmutt.mixture.cov import PiecewiseCovEffect
+    ctx.tag('construct:shared-lists')
+    iv, sl = list(case['init']['intervals']), list(case['init']['slopes'])
+    objs = [PiecewiseCovEffect(name_i='A(S)', name_j='B(S)', intervals=iv, slopes=sl, name='lat%d' % k)
+            for k in range(2)]
+    ctx.trace()
+    ed, other = objs[case['who']], objs[1 - case['who']]
+    before = _pairs(other)
+    sig = {'op': 'shared-lists', 'edit': case['op'][0]}
+    new, exp = apply_op(ed, case['op'], ctx, sig, case)
+    ctx.trans()
+    ctx.state(('shared', case['init'], case['who'], case['op']))
+    ctx.nontrivial(('shared', case['init'], case['who'], case['op']))
+    ctx.equal('edit changes exactly the edited (breakpoint, slope) pair', _pairs(new), exp, sig, case)
+    check_state(new, ctx, sig, case)
+    ctx.equal('an object built from the same lists is not changed by editing the other one', _pairs(other), before,
+              sig, case)
+    check_state(other, ctx, dict(sig, obj='the other object'), case)
+
+
 def check_case(case, ctx):
+    if case.get('kind') == 'shared':
+        check_shared(case, ctx)
+        return
     _replay(case, ctx, check_all=True)
 
 
 def run_shard(shard, ctx):
+    if shard.get('kind') == 'shared':
+        for case in _shared_cases(shard['n']):
+            ctx.run_case(check_case, case, {'op': 'shared-lists'})
+        ctx.sample(case, limit=1)
+        return
     init, depth = shard['init'], shard['depth']
+    if init.get('ints'):
+        ctx.tag('slopes:int-typed')
     root = dict(init=init, ops=[])
     obj = _replay(root, ctx, check_all=True)
     if obj is None:
@@ -269,7 +344,7 @@ def run_shard(shard, ctx):
         nxt = []
         for hist in frontier:
             base = _replay_silent(init, hist)
-            for op in _ops_for(base):
+            for op in _ops_for(base, ints=bool(init.get('ints'))):
                 case = dict(init=init, ops=hist + [op])
 
                 def one(case_, ctx_):
